@@ -775,14 +775,21 @@ func (c *WRCase) ID() string {
 func (c *WRCase) Exec(t *eng.T) {
 	x := float64(c.Cur) / float64(c.Max) * float64(c.Width)
 	// exact rational: cur*width / max
-	numr := c.Cur * c.Width
-	q, r := numr/c.Max, numr%c.Max
-	if 2*r == c.Max {
+	numr, den := c.Cur*c.Width, c.Max
+	if den < 0 {
+		numr, den = -numr, -den
+	}
+	// floor division: numr = q*den + r with 0 <= r < den (also for negative ratios)
+	q, r := numr/den, numr%den
+	if r < 0 {
+		q, r = q-1, r+den
+	}
+	if 2*r == den {
 		t.Skip() // exact tie: half-up (Python 2) vs half-even (Python 3) is left open
 		return
 	}
 	want := q
-	if 2*r > c.Max {
+	if 2*r > den {
 		want = q + 1
 	}
 	_ = x
@@ -1001,9 +1008,12 @@ func run(r *eng.Runner) {
 		}
 	}
 
-	r.Group("widthratio", "c18.wr", "widthratio cur (0..12) x max (1..12) x width {1,10,100}, plain and `as` form")
-	for cur := 0; cur <= 12; cur++ {
-		for mx := 1; mx <= 12; mx++ {
+	r.Group("widthratio", "c18.wr", "widthratio cur (-12..12) x max (-12..12 without 0) x width {1,10,100}, plain and `as` form (negative ratios round to the nearest integer as well)")
+	for cur := -12; cur <= 12; cur++ {
+		for mx := -12; mx <= 12; mx++ {
+			if mx == 0 {
+				continue
+			}
 			for _, w := range []int{1, 10, 100} {
 				r.Do(&WRCase{Cur: cur, Max: mx, Width: w})
 				r.Do(&WRCase{Cur: cur, Max: mx, Width: w, As: true})
